@@ -93,8 +93,12 @@ def r1_agreement(rep, ctx):
     pows = [c for c in own_nodes(fn.node) if isinstance(c, ast.Call) and ast.unparse(c.func) in ("math.pow", "pow")]
     root = [c for c in pows if "1.0 / from_exp" in ast.unparse(c) or "1 / from_exp" in ast.unparse(c)]
     power = [c for c in pows if len(c.args) == 2 and ast.unparse(c.args[1]) == "to_exp"]
+    if not root or not power:
+        raise AnalysisError("_ConvertWithExp: the root-convert-power idiom (math.pow(value, 1.0 / from_exp) ... math.pow(value, to_exp)) was not found: the checker cannot tell whether another algorithm honours the exponent")
     order_ok = bool(root) and bool(power) and root[0].lineno < [c for c in convs if c not in direct][0].lineno < power[0].lineno
     rep.check(order_ok, "C02.R1", "_ConvertWithExp:root-convert-power", "for other exponents the e-th root is converted and the result raised to the target exponent", "the exponent arm does not take the root before and the power after the conversion", fn=fn)
+    if not any(isinstance(x, ast.Name) and x.id == "negative" for x in ast.walk(fn.node)):
+        raise AnalysisError("_ConvertWithExp: sign handling idiom changed")
     neg = [st for st in own_statements(fn.node) if isinstance(st, ast.Return) and ast.unparse(st.value).replace(" ", "") == "-ret"]
     rep.check(len(neg) == 1 and isinstance(neg[0]._parent, ast.If) and ast.unparse(neg[0]._parent.test) == "negative", "C02.R1", "_ConvertWithExp:sign", "the sign of a negative value is restored", "the sign of a negative value is not restored", fn=fn)
 
